@@ -4,7 +4,8 @@
    /repo/internal/unionstore/arena/arena.go (AppendValue, CanModify, RevertToCheckpoint,
    GetSnapshotValue, SelectValueHistory, InspectKVInLog) and art/art.go = rbt/rbt.go (Set,
    setValue/trySwapValue, RevertVAddr, Staging/Release/Cleanup, Checkpoint/RevertToCheckpoint,
-   Len/Size/Dirty accounting, WriteSeqNo/SnapshotSeqNo — the last two exist in ART only).
+   Len/Size/Dirty accounting, lastCheckpoint (fix 6b4091a: a value written before the latest
+   checkpoint is never overwritten in place), WriteSeqNo/SnapshotSeqNo — the last two exist in ART only).
 
    Abstractions: the log is a list, newest entry first; the address of an entry is the length of
    the log right after it was appended (the code's address is the end offset of the entry: the
@@ -29,11 +30,12 @@ Record st1 := mk1 {
   blimit1 : N;
   wseq1   : N;                            (* ART.WriteSeqNo *)
   sseq1   : N;                            (* ART.SnapshotSeqNo *)
-  regs1   : list (list (nat * bool))      (* checkpoint tokens per level (position, ghost: an entry at or
-                                             below the position was overwritten in place afterwards) *)
+  regs1   : list (list nat);              (* the client's live checkpoint tokens (log positions), per level *)
+  lastcp1 : option nat                    (* ART/RBT.lastCheckpoint: position of the latest Checkpoint / Revert,
+                                             clamped by a Cleanup that cuts the log below it *)
 }.
 
-Definition init1 : st1 := mk1 [] [] [] 0 0 false unlimited unlimited 0 0 [[]].
+Definition init1 : st1 := mk1 [] [] [] 0 0 false unlimited unlimited 0 0 [[]] None.
 
 (* ---- the log, by address ---- *)
 Fixpoint entry_at_n (a n : nat) (l : vlog) : option entry :=
@@ -93,8 +95,9 @@ Fixpoint revert_n (p n : nat) (l : vlog) (st : acct) : vlog * acct :=
 
 Definition depth1 (s : st1) : nat := length (stages1 s).
 Definition can_modify (s : st1) (a : nat) : bool :=
-  match stages1 s with [] => true | p :: _ => Nat.ltb p a end.
-Definition reg1 (s : st1) : list (nat * bool) := hd [] (regs1 s).
+  match stages1 s with [] => true | p :: _ => Nat.ltb p a end &&
+  match lastcp1 s with None => true | Some c => Nat.ltb c a end.
+Definition reg1 (s : st1) : list nat := hd [] (regs1 s).
 Definition no_stage (s : st1) : bool := match stages1 s with [] => true | _ => false end.
 
 Definition flags_of1 (k : key) (s : st1) : flags :=
@@ -107,10 +110,7 @@ Definition touch1 (k : key) (f1 : flags) (s : st1) : st1 :=
       (if k_del ent then len1 s + 1 else len1 s)
       (if k_del ent then size1 s + blen k else size1 s)
       (dirty1 s || no_stage s || negb (fzero (and_persistent f1)))
-      (elimit1 s) (blimit1 s) (wseq1 s + 1) (if no_stage s then sseq1 s + 1 else sseq1 s) (regs1 s).
-
-Definition taint (a : nat) (regs : list (list (nat * bool))) : list (list (nat * bool)) :=
-  map (fun ct => (fst ct, snd ct || Nat.leb a (fst ct))) (hd [] regs) :: tl regs.
+      (elimit1 s) (blimit1 s) (wseq1 s + 1) (if no_stage s then sseq1 s + 1 else sseq1 s) (regs1 s) (lastcp1 s).
 
 (* setValue after the flags: trySwapValue, else AppendValue *)
 Definition setvalue1 (k : key) (v : val) (s : st1) : st1 :=
@@ -121,14 +121,14 @@ Definition setvalue1 (k : key) (v : val) (s : st1) : st1 :=
         mk1 (mkE k (k_head ent) v :: log1 s)
             (kupsert k (mkK (Some (S (length (log1 s)))) (k_flags ent) (k_del ent)) (keys1 s))
             (stages1 s) (len1 s) (size1 s + blen v - oldlen) (dirty1 s) (elimit1 s) (blimit1 s)
-            (wseq1 s) (sseq1 s) (regs1 s) in
+            (wseq1 s) (sseq1 s) (regs1 s) (lastcp1 s) in
       match k_head ent with
       | None => append 0
       | Some a =>
           let oldv := value_at a (log1 s) in
           if can_modify s a && coalesces oldv v
           then mk1 (set_at a v (log1 s)) (keys1 s) (stages1 s) (len1 s) (size1 s) (dirty1 s)
-                   (elimit1 s) (blimit1 s) (wseq1 s) (sseq1 s) (taint a (regs1 s))
+                   (elimit1 s) (blimit1 s) (wseq1 s) (sseq1 s) (regs1 s) (lastcp1 s)
           else append (blen oldv)
       end
   end.
@@ -147,7 +147,7 @@ Definition updflags1 (k : key) (fops : list flag_op) (s : st1) : st1 * out :=
 
 Definition staging1 (s : st1) : st1 * out :=
   (mk1 (log1 s) (keys1 s) (length (log1 s) :: stages1 s) (len1 s) (size1 s) (dirty1 s)
-       (elimit1 s) (blimit1 s) (wseq1 s) (sseq1 s) ([] :: regs1 s),
+       (elimit1 s) (blimit1 s) (wseq1 s) (sseq1 s) ([] :: regs1 s) (lastcp1 s),
    RNat (S (depth1 s))).
 
 Definition release1 (h : nat) (s : st1) : st1 * out :=
@@ -161,7 +161,8 @@ Definition release1 (h : nat) (s : st1) : st1 * out :=
         let one := Nat.eqb h 1 in
         (mk1 (log1 s) (keys1 s) ps (len1 s) (size1 s)
              (dirty1 s || (one && negb (Nat.eqb p (length (log1 s)))))
-             (elimit1 s) (blimit1 s) (wseq1 s + 1) (if one then sseq1 s + 1 else sseq1 s) (tl (regs1 s)),
+             (elimit1 s) (blimit1 s) (wseq1 s + 1) (if one then sseq1 s + 1 else sseq1 s)
+             ((hd [] (tl (regs1 s)) ++ hd [] (regs1 s)) :: tl (tl (regs1 s))) (lastcp1 s),
          RUnit)
     end
   end.
@@ -181,30 +182,24 @@ Definition cleanup1 (h : nat) (s : st1) : st1 * out :=
              let '(l, (keys, len, size)) := revert_to p s in
              let one := Nat.eqb h 1 in
              (mk1 l keys ps len size (dirty1 s) (elimit1 s) (blimit1 s) (wseq1 s + 1)
-                  (if one then sseq1 s + 1 else sseq1 s) (tl (regs1 s)), RUnit)
+                  (if one then sseq1 s + 1 else sseq1 s) (tl (regs1 s))
+                  (match lastcp1 s with Some c => Some (Nat.min c p) | None => None end), RUnit)
          end
   end.
 
 Definition checkpoint1 (s : st1) : st1 * out :=
   (mk1 (log1 s) (keys1 s) (stages1 s) (len1 s) (size1 s) (dirty1 s) (elimit1 s) (blimit1 s)
-       (wseq1 s) (sseq1 s) ((reg1 s ++ [(length (log1 s), false)]) :: tl (regs1 s)),
+       (wseq1 s) (sseq1 s) ((reg1 s ++ [length (log1 s)]) :: tl (regs1 s)) (Some (length (log1 s))),
    RNat (length (reg1 s))).
 
 Definition revert1 (i : nat) (s : st1) : st1 * out :=
   match nth_error (reg1 s) i with
   | None => (s, RMisuse)
-  | Some (c, _) =>
+  | Some c =>
       let '(l, (keys, len, size)) := revert_to c s in
       (mk1 l keys (stages1 s) len size (dirty1 s) (elimit1 s) (blimit1 s) (wseq1 s + 1)
            (if no_stage s || Nat.ltb (last (stages1 s) O) c then sseq1 s + 1 else sseq1 s)
-           (firstn (S i) (reg1 s) :: tl (regs1 s)), RUnit)
-  end.
-
-(* ghost: the op reverts to a checkpoint below which a value was overwritten in place *)
-Definition hazard1 (s : st1) (o : op) : bool :=
-  match o with
-  | ORevert i => match nth_error (reg1 s) i with Some (_, t) => t | None => false end
-  | _ => false
+           (firstn (S i) (reg1 s) :: tl (regs1 s)) (Some c), RUnit)
   end.
 
 (* ---- observers ---- *)
@@ -280,7 +275,7 @@ Definition step1 (s : st1) (o : op) : st1 * out :=
   | OCheckpoint => checkpoint1 s
   | ORevert i => revert1 i s
   | OSetLimits e b => (mk1 (log1 s) (keys1 s) (stages1 s) (len1 s) (size1 s) (dirty1 s) e b
-                           (wseq1 s) (sseq1 s) (regs1 s), RUnit)
+                           (wseq1 s) (sseq1 s) (regs1 s) (lastcp1 s), RUnit)
   | _ => (s, obs1 o s)
   end.
 
@@ -291,10 +286,3 @@ Fixpoint run1 (s : st1) (ops : list op) : list out :=
   end.
 Fixpoint exec1 (s : st1) (ops : list op) : st1 :=
   match ops with [] => s | o :: r => exec1 (fst (step1 s o)) r end.
-
-(* no step of the run reverts to a tainted checkpoint *)
-Fixpoint no_hazard (s : st1) (ops : list op) : bool :=
-  match ops with
-  | [] => true
-  | o :: r => negb (hazard1 s o) && no_hazard (fst (step1 s o)) r
-  end.
